@@ -92,6 +92,11 @@ def instances(tier, seed):
                 continue
             add(kind='expr', spec=m, exprs=[e])
         add(kind='expr', spec=m, exprs=[X(0) * t, X(1) - t * t])         # vector valued
+        if mi == 0:
+            # the dynamics re-declared after a first der(): on an Ocp and on a free-standing template stage
+            ode2 = [X(1) * 3 - X(0) * t, X(0) * X(0) + U(0)]
+            for tpl_ in (False, True):
+                add(kind='expr', spec=m, exprs=[X(0) * X(1) * t, X(0) * X(0) - t * X(1)], ode2=ode2, template=tpl_)
         # a declared quadrature state inside the expression: its derivative is its integrand
         mq = copy.deepcopy(m)
         mq.quads = [X(0) * X(0) + t]
@@ -275,8 +280,23 @@ def run(item):
         return res
     spec = item['spec']
     with quiet():
-        b = declare(spec, Cfg(), with_method=False)
+        if item.get('template'):
+            # declared on a free-standing template stage (Stage(), no parent Ocp)
+            from rockit import Stage as _Stage
+            tpl_ = _Stage()
+            b = declare(spec, Cfg(), with_method=False, ocp=None, stage=tpl_)
+            b.ocp = tpl_
+        else:
+            b = declare(spec, Cfg(), with_method=False)
     st = b.ocp
+    if item.get('ode2'):
+        # der() is asked once, then the dynamics are declared AGAIN: der() follows the latest declaration
+        with quiet():
+            st.der(ca.vcat([b.mx(e) for e in item['exprs']]))
+            for xi_, rhs_ in zip(b.xs, item['ode2']):
+                st.set_der(xi_, b.mx(rhs_))
+        spec = copy.deepcopy(spec)
+        spec.ode = list(item['ode2'])
     if item['kind'] == 'control-dependence':
         if not spec.nu:
             return {'stats': stats, 'obligations': 0, 'discharged': 0, 'status': 'skipped', 'why': 'no control'}
